@@ -58,6 +58,8 @@ class Monitor(object):
         self.voters = set(static_voters or [])
         self.trigger = {}           # finding triggers seen: name -> first step
         self.cfg_after = {}
+        self.replay_idx = {}
+        self.waiters_seen = {}
         self.stats = {'applies': 0, 'commits': 0, 'elections': 0, 'callbacks': 0, 'snap_installs': 0}
 
     def rec_c02(self, cb, msg):
@@ -291,6 +293,7 @@ class Monitor(object):
             return
         self.check_c06_c07(rec, sim, ev, nid, o)
         self.check_version(rec, sim, nid, o)
+        self.check_waiters(rec, sim, nid, o)
         self.note_snapshot_taken(rec, sim, nid, o)
         self.check_c10(rec, sim, nid, o)
         self.check_c18_c20(rec, sim, ev, nid, o)
@@ -454,6 +457,9 @@ class Monitor(object):
         cur = getattr(ser, '_Serializer__currentID', None)
         key = (nid, self.incarnation.get(nid, 0))
         self.snap_ids = getattr(self, 'snap_ids', {})
+        if key not in self.snap_ids:
+            self.snap_ids[key] = cur           # first sight of this process: the initial value is not a snapshot
+            return
         if cur is None or self.snap_ids.get(key) == cur:
             return
         self.snap_ids[key] = cur
@@ -469,6 +475,31 @@ class Monitor(object):
                         members.discard(b)
         if nid not in members and all(i in self.committed for i in range(2, pos + 1)):
             self.trigger.setdefault('kf_c10_3', self.step)
+
+    def check_waiters(self, rec, sim, nid, o):
+        """C19 ("each callback fires once"): a caller waiting on this node for a log position to be committed is told the
+        outcome (SUCCESS, or DISCARDED when another term's entry took the position) - its registration never just
+        disappears.  Read from the table of waiters before and after every step of the node."""
+        cur = {}
+        try:
+            table = g(o, 'commandsWaitingCommit')
+            for idx, v in list(table.items()):
+                items = v if isinstance(v, list) else [v]
+                for it in items:
+                    cb = it[1] if isinstance(it, tuple) and len(it) == 2 else None
+                    d = getattr(cb, '__defaults__', None)
+                    if d and isinstance(d[0], int):
+                        cur[d[0]] = idx
+        except Exception:
+            return
+        key = (nid, self.incarnation.get(nid, 0))
+        prev = self.waiters_seen.get(key, {})
+        fired_now = set(cb for cb, _r, _e in sim.fired)
+        for cbid, idx in prev.items():
+            if cbid not in cur and cbid not in fired_now and cbid not in self.fired:
+                self.rec('C19', 'node %d: the caller of command %d, waiting for position %d to be committed, was dropped from the '
+                                'table of waiters without its callback being called' % (nid, cbid, idx))
+        self.waiters_seen[key] = cur
 
     def check_version(self, rec, sim, nid, o):
         """C09 / C17: the enabled code version of a node is the one the VERSION commands of its applied prefix define -
@@ -490,6 +521,20 @@ class Monitor(object):
                 self.stuck_reported[key] = True
                 self.rec('C09', 'node %d has applied the log up to position %d, where the enabled code version is %d, but reports version %d'
                          % (nid, applied, want, have))
+        # ... and a call made on the node now resolves to the implementation of that version: the name table follows the
+        # enabled version also when the version arrived inside a dump or an installed snapshot
+        if hasattr(type(o), 'vmark_v1') or hasattr(o, 'vmark'):
+            try:
+                name = o._getFuncName('vmark')
+            except KeyError:
+                name = None
+            expect = 'vmark_v1' if have >= 1 else None
+            if name != expect:
+                key = ('vtable', nid, self.incarnation.get(nid, 0), applied)
+                if key not in self.stuck_reported:
+                    self.stuck_reported[key] = True
+                    self.rec('C09', 'node %d (enabled code version %d, applied position %d): a call of the versioned method resolves to %r, '
+                             'the implementation of that version is %r' % (nid, have, applied, name, expect))
 
     def note_configurations(self, rec, sim, log):
         """cfg_after[(index, term)] = the configuration defined by the membership commands up to that entry: the fold
@@ -516,6 +561,9 @@ class Monitor(object):
         applied = g(o, 'raftLastApplied')
         if old is None or not log:
             self.shadow[nid] = set(actual)
+            # a process started from a journal file: the membership entries it read from the journal take effect when
+            # they are applied, entries appended later when they are appended
+            self.replay_idx[nid] = log[-1][1] if (log and self.journaled and old is None) else 0
         else:
             # common prefix of the old and the new log (by index and term)
             new_by_idx = dict((e[1], e) for e in log)
@@ -557,6 +605,22 @@ class Monitor(object):
                 gone = [e for e in old if e[1] not in new_by_idx or new_by_idx[e[1]][2] != e[2]]
                 came = [e for e in log if e[1] not in old_by_idx or old_by_idx[e[1]][2] != e[2]]
                 first_new = log[0][1]
+                ri = self.replay_idx.get(nid, 0)
+                if ri:
+                    cut = [e[1] for e in gone if e[1] >= first_new]
+                    if cut:
+                        ri = self.replay_idx[nid] = min(ri, min(cut) - 1)
+                    pa = self.prev.get(nid, (0, 0))[1]
+                    for e in log:
+                        if pa < e[1] <= applied and e[1] <= ri:
+                            kind, a, b = sim.cid_of_command(e[0])
+                            if kind == 2 and b != nid:
+                                if a == 1:
+                                    sh.add(b)
+                                else:
+                                    sh.discard(b)
+                    gone = [e for e in gone if e[1] > ri or e[1] <= pa]
+                    came = [e for e in came if e[1] > ri]
                 for e in sorted(gone, key=lambda e: -e[1]):
                     if e[1] < first_new:
                         continue            # compacted away, not truncated
